@@ -82,28 +82,51 @@ func runG(c *hx.Ctx, r *hx.Rng, n int) error {
 		nops := 3 + cr.Intn(8)
 		for i := 0; i < nops; i++ {
 			if cr.Chance(22) {
-				var ps, pi *time.Duration
-				ss, is := "-", "-"
+				var c2 rpCmd
+				ss, is, ds := "-", "-", "-"
 				if cr.Chance(75) {
-					v := time.Duration(sgds[cr.Intn(len(sgds))])
-					ps, ss = &v, strconv.FormatInt(int64(v), 10)
+					v := sgds[cr.Intn(len(sgds))]
+					c2.sgd, ss = i64(v), strconv.FormatInt(v, 10)
 				}
-				if ps == nil || cr.Chance(30) {
-					v := time.Duration(pickIgd(int64(rp.ShardGroupDuration)))
-					pi, is = &v, strconv.FormatInt(int64(v), 10)
+				if c2.sgd == nil || cr.Chance(30) {
+					v := pickIgd(int64(rp.ShardGroupDuration))
+					c2.igd, is = i64(v), strconv.FormatInt(v, 10)
 				}
-				op := fmt.Sprintf("g alter %s %s", ss, is)
+				if cr.Chance(50) {
+					// the policy duration: unlimited, below the minimum, below / above the shard group duration
+					v := []int64{0, 0, 30 * 60 * sec, hour, 2 * hour, int64(rp.ShardGroupDuration) - 1, int64(rp.ShardGroupDuration), 30 * 24 * hour, 99999 * 24 * hour}[cr.Intn(9)]
+					c2.dur, ds = i64(v), strconv.FormatInt(v, 10)
+				}
+				// fields that are 0 in this policy, sent as 0 or left out: two different commands, one result
+				if cr.Chance(30) {
+					c2.hot = i64(0)
+				}
+				if cr.Chance(30) {
+					c2.warm = i64(0)
+				}
+				if cr.Chance(30) {
+					c2.cold = i64(0)
+				}
+				c2.makeDefault = cr.Bool()
+				op := fmt.Sprintf("g alter %s %s %s", ss, is, ds)
 				hist += " ;; " + op
+				var viol [][2]string
 				if perr := hx.Safe(func() {
-					if err := data.UpdateRetentionPolicy(dbName, rpName, &meta.RetentionPolicyUpdate{ShardGroupDuration: ps, IndexGroupDuration: pi}, false); err != nil {
-						ans = "err " + err.Error()
+					if err := applyAlterCmd(data, dbName, rpName, c2); err != nil {
+						ans = "err"
 						return
 					}
-					ans = fmt.Sprintf("ok %d %d", int64(rp.ShardGroupDuration), int64(rp.IndexGroupDuration))
+					ans = fmt.Sprintf("ok %d %d %d", int64(rp.ShardGroupDuration), int64(rp.IndexGroupDuration), int64(rp.Duration))
+					if c2.dur != nil && int64(rp.Duration) != *c2.dur {
+						viol = append(viol, [2]string{"alter-not-applied", fmt.Sprintf("the command carried DURATION %d and was acknowledged, the catalogue holds %d ;; history: %s", *c2.dur, int64(rp.Duration), hist)})
+					}
 				}); perr != "" {
 					ans = "err " + perr
 				}
-				c.Emit(op, ans)
+				line := c.Emit(op, ans)
+				for _, v := range viol {
+					c.Violation(line, v[0], v[1])
+				}
 				c.Count("g.alter")
 				altered = true
 				continue
